@@ -430,3 +430,74 @@ Proof.
   destruct (generate_after_validate g root [] H) as (fuel & r & Hr).
   rewrite Hcyc in Hr. discriminate.
 Qed.
+
+(* ---- stated on routes: no cycle survives on ANY route of unskipped statements ------ *)
+
+(* statement i of file a includes b and was not reported *)
+Definition uedge (g : graph) (bad : list ierr) (a b : N) : Prop :=
+  exists es i, edges_of g a = Some es /\ nth_error es i = Some b /\ skipped bad a i = false.
+
+(* a route of k unskipped include statements *)
+Inductive upath (g : graph) (bad : list ierr) : nat -> N -> N -> Prop :=
+| up_here : forall a, upath g bad 0 a a
+| up_step : forall k a b c, uedge g bad a b -> upath g bad k b c -> upath g bad (S k) a c.
+
+Lemma upath_app : forall g bad k1 a b, upath g bad k1 a b ->
+  forall k2 c, upath g bad k2 b c -> upath g bad (k1 + k2) a c.
+Proof.
+  intros g bad k1 a b H. induction H as [a|k a b c' E P IH]; intros k2 c Q; [exact Q|].
+  cbn [Nat.add]. econstructor; [exact E|apply IH; exact Q].
+Qed.
+
+Lemma upath_loop : forall g bad c n, upath g bad (S c) n n -> forall m, upath g bad (m * S c) n n.
+Proof.
+  intros g bad c n H m. induction m as [|m IH]; [constructor|].
+  cbn [Nat.mul]. eapply upath_app; eauto.
+Qed.
+
+Lemma gen_children_edge : forall (gen : N -> option (list N)) bad id es i0 r j b,
+  gen_children gen bad id es i0 = Some r -> nth_error es j = Some b ->
+  skipped bad id (i0 + j) = false -> exists r', gen b = Some r'.
+Proof.
+  intros gen bad id es. induction es as [|c t IH]; intros i0 r j b H Hn Hs; [destruct j; discriminate|].
+  cbn [gen_children] in H. destruct j as [|j].
+  - cbn in Hn. injection Hn as Hn; subst c. rewrite Nat.add_0_r in Hs. rewrite Hs in H.
+    destruct (gen b) as [a|]; [eexists; reflexivity|discriminate].
+  - cbn in Hn. replace (i0 + S j) with (S i0 + j) in Hs by lia.
+    destruct (skipped bad id i0).
+    + eapply IH; eauto.
+    + destruct (gen c); [|discriminate].
+      destruct (gen_children gen bad id t (S i0)) as [l2|] eqn:G; [|discriminate]. eapply IH; eauto.
+Qed.
+
+Lemma generate_edge : forall g bad f a b r,
+  generate (S f) g bad a = Some r -> uedge g bad a b -> exists r', generate f g bad b = Some r'.
+Proof.
+  intros g bad f a b r H (es & i & He & Hn & Hs). cbn [generate] in H. rewrite He in H.
+  destruct (gen_children (generate f g bad) bad a es 0) as [l|] eqn:G; [|discriminate].
+  eapply gen_children_edge; eauto.
+Qed.
+
+Lemma generate_path : forall g bad k a c, upath g bad k a c ->
+  forall f r, generate f g bad a = Some r -> k < f.
+Proof.
+  intros g bad k a c H. induction H as [a|k a b c E P IH]; intros f r G.
+  - destruct f; [discriminate|lia].
+  - destruct f; [discriminate|]. destruct (generate_edge _ _ _ _ _ _ G E) as [r' G'].
+    specialize (IH _ _ G'). lia.
+Qed.
+
+(* Whatever route of unreported include statements leads from the root to a file,
+   that file is on no cycle of unreported statements: every cycle reachable from
+   the root by SOME route is cut by a reported statement. *)
+Lemma no_unreported_cycle : forall g root bad,
+  validate g root = Some bad ->
+  forall k n, upath g bad k root n -> forall c, ~ upath g bad (S c) n n.
+Proof.
+  intros g root bad V k n P c L.
+  destruct (generate_after_validate g root bad V) as (fuel & r & G).
+  pose proof (upath_app _ _ _ _ _ P _ _ (upath_loop _ _ _ _ L fuel)) as Q.
+  pose proof (generate_path _ _ _ _ _ Q _ _ G) as B.
+  assert (fuel <= fuel * S c) by (rewrite Nat.mul_comm; cbn; lia). lia.
+Qed.
+
